@@ -124,7 +124,12 @@ def replay_rebinding(inputs, obl):
             for t in h:
                 try:
                     v = k(t)
-                    out.append('undefined-or-error' if v is KLONG_UNDEFINED else repr(v.tolist() if hasattr(v, 'tolist') else v) + ':' + type(v).__name__.replace('int64', 'int').replace('float64', 'float'))
+                    if v is KLONG_UNDEFINED:
+                        out.append('undefined-or-error')
+                    elif type(v).__module__.startswith('klongpy') and not isinstance(v, str):
+                        out.append('<' + type(v).__name__ + '>')          # a function object: its repr carries an address
+                    else:
+                        out.append(repr(v.tolist() if hasattr(v, 'tolist') else v) + ':' + type(v).__name__.replace('int64', 'int').replace('float64', 'float'))
                 except Exception:
                     out.append('undefined-or-error')
             return out
